@@ -78,7 +78,7 @@ def run_into(R, tier):
         if bad:
             R.machinery(f"TLC Garbage: {bad[0].violated or bad[0].error}")
             return
-        for w in driverprops.pool_map(_work, [dict(rec=rec, idx=i) for i, rec in enumerate(exports)]):
+        for w in driverprops.pool_map_shared(_work, [dict(rec=rec, idx=i) for i, rec in enumerate(exports)]):
             g = exports[w["idx"]]["garb"]
             R.case(("garbage", kind, w["idx"]))
             if w["outcome"] in ("fatal", "error_on_line"):
